@@ -134,6 +134,11 @@ func ReadRespBody(resp *protocol.Response, r network.Reader, maxBodySize int) (e
 		if err != nil && err != io.EOF {
 			return err
 		}
+		if err == io.EOF {
+			// The peer closed before the end of the message. The body is kept,
+			// but the connection is gone: it must be closed, not pooled.
+			resp.Header.SetConnectionClose(true)
+		}
 	}
 	resp.Header.SetContentLength(len(bodyBuf.B))
 	return nil
@@ -142,6 +147,8 @@ func ReadRespBody(resp *protocol.Response, r network.Reader, maxBodySize int) (e
 type clientRespStream struct {
 	r             io.Reader
 	closeCallback func(shouldClose bool) error
+	// broken is set when reading the body failed: the exchange did not complete cleanly
+	broken bool
 }
 
 func (c *clientRespStream) Close() (err error) {
@@ -149,7 +156,7 @@ func (c *clientRespStream) Close() (err error) {
 	// If error happened in release, the connection may be in abnormal state.
 	// Close it in the callback in order to avoid other unexpected problems.
 	err = ext.ReleaseBodyStream(c.r)
-	shouldClose := false
+	shouldClose := c.broken
 	if err != nil {
 		shouldClose = true
 		hlog.Warnf("connection will be closed instead of recycled because an error occurred during the stream body release: %s", err.Error())
@@ -162,12 +169,19 @@ func (c *clientRespStream) Close() (err error) {
 }
 
 func (c *clientRespStream) Read(p []byte) (n int, err error) {
-	return c.r.Read(p)
+	n, err = c.r.Read(p)
+	if err != nil && err != io.EOF {
+		// e.g. the peer closed in the middle of the body: releasing the stream reports no
+		// error after that, but the connection must not go back to the pool.
+		c.broken = true
+	}
+	return n, err
 }
 
 func (c *clientRespStream) reset() {
 	c.closeCallback = nil
 	c.r = nil
+	c.broken = false
 	clientRespStreamPool.Put(c)
 }
 
